@@ -62,6 +62,8 @@ class Agg:
             ocs = list(oc)
         else:
             ocs = [oc]
+        if not ocs:
+            ocs = ["(no outcome)"]
         for o in ocs:
             self.outcomes[str(o)] += 1
         for s in res.get("states", ()):
